@@ -37,12 +37,16 @@ def optStrFld (j : Json) (k : String) : R (Option String) :=
 
 def optInt (j : Json) : R (Option Int) := if j.isNull then pure none else some <$> j.getInt?
 
-/-- `[name, has write method, declared default, declared value, configured default, configured value]` -/
+/-- `[name, has write method, declared default, declared value, configured default, configured value]`, optionally
+followed by `needscfg, the configured value is not of the datatype` -/
 def parseParam (j : Json) : R PCfg := do
   match (← arr j) with
   | [n, w, d, v, cd, cv] =>
     return { name := ← n.getStr?, hasWrite := ← w.getBool?, clsDefault := ← optInt d, clsValue := ← optInt v,
              cfgDefault := ← optInt cd, cfgValue := ← optInt cv }
+  | [n, w, d, v, cd, cv, nc, bad] =>
+    return { name := ← n.getStr?, hasWrite := ← w.getBool?, clsDefault := ← optInt d, clsValue := ← optInt v,
+             cfgDefault := ← optInt cd, cfgValue := ← optInt cv, needscfg := ← nc.getBool?, cfgBad := ← bad.getBool? }
   | _ => throw "bad param"
 
 /-- the parameters of a module description; cases recorded before parameters were part of a case list only the names
